@@ -25,14 +25,15 @@ var c20ReadOnlyCallees = map[string]bool{
 }
 
 type c20ctx struct {
-	r       *Report
-	prefix  string // program name
-	pkg     *ssa.Package
-	posOf   func(token.Pos) string
-	shared  map[string]bool // type names whose pointer receivers are shared between requests
-	nFuncs  int
-	nGlobal int
-	nStores int
+	r                                  *Report
+	prefix                             string // program name
+	pkg                                *ssa.Package
+	posOf                              func(token.Pos) string
+	shared                             map[string]bool // type names whose pointer receivers are shared between requests
+	nFuncs                             int
+	nGlobal                            int
+	nStores                            int
+	nRoots, nSharedStores, nSharedArgs int
 }
 
 func pkgFunctions(pkg *ssa.Package) []*ssa.Function {
@@ -115,6 +116,7 @@ func rootOf(v ssa.Value) ssa.Value {
 
 func (c *c20ctx) run() {
 	fns := pkgFunctions(c.pkg)
+	c.sharedLayer(fns)
 	for _, fn := range fns {
 		if fn.Blocks == nil {
 			continue
@@ -301,6 +303,7 @@ func runC20(r *Report) {
 	r.Rule("C20/globals-read-only", "package variables: stores only in init; other uses are loads whose value is called, compared, or passed to a read-only callee; address never taken")
 	r.Rule("C20/receiver-read-only", "methods of *API / *Client never store or map-update through their receiver")
 	r.Rule("C20/no-hidden-sharing", "no go statement, no sync/atomic; pointer-receiver methods of the package are not applied to package-level storage or fields of the shared receiver")
+	r.Rule("C20/shared-data-read-only", "no store, map update, append, copy or in-place library mutation (slices.Reverse, sort…) through a reference rooted in the shared API/Client receiver or in a value receiver's data, followed through parameters of in-package callees and closure captures")
 	r.Rule("C20/witness", "the rules flag the positive witnesses (counter, lazy init, cache on API, goroutine) and stay silent on the clean one")
 	r.Assumptions = append(r.Assumptions,
 		"races inside user handlers, net/http, the HTTPClient implementation, and user code assigning LogError concurrently are outside generated code",
@@ -315,7 +318,7 @@ func runC20(r *Report) {
 	}
 	defer s3.Close()
 	s3.reportUnusable(r, "C20/program-analysable")
-	nF, nG, nS, nP := 0, 0, 0, 0
+	nF, nG, nS, nP, nRoots := 0, 0, 0, 0, 0
 	for _, p := range s3.Usable() {
 		if p.SSAPkg == nil {
 			r.Undecided("C20/program-analysable", p.Name+":ssa", "", "no SSA package")
@@ -339,11 +342,14 @@ func runC20(r *Report) {
 		nF += c.nFuncs
 		nG += c.nGlobal
 		nS += c.nStores
+		nRoots += c.nRoots
 	}
 	s3.coverageSummary(r)
 	r.Analysed["functions_scanned"] = nF
 	r.Analysed["global_uses_classified"] = nG
 	r.Analysed["store_instructions_checked"] = nS
+	r.Analysed["shared_reference_roots"] = nRoots
+	r.FloorMin("shared reference roots (API/Client receivers, value receivers, propagated parameters)", nRoots, 1000)
 	r.FloorMin("programs scanned", nP, 50)
 	r.FloorMin("functions scanned", nF, 3000)
 	r.FloorMin("package-variable uses classified", nG, 100)
